@@ -146,3 +146,59 @@ func ZZ_C11_BIG() {
 	zz.Assert("handled", calls == 1)
 	zz.Assert("big-body-intact", bytes.Equal(got, body))
 }
+
+// ZZ_C11_H3: response header fields through the whole client (HostClient.Do over a scripted
+// connection), with header-name normalisation on and off: the caller sees the field names as the
+// server sent them when normalisation is disabled, in canonical form otherwise, and the values
+// (one byte symbolic) unchanged in both cases; also on the second exchange over the reused
+// connection and Response object.
+func ZZ_C11_H3() {
+	disable := zz.Choose("disableNormalizing", 2) == 1
+	v := zz.Byte("value")
+	zz.Assume(v > ' ' && v < 0x7f)
+	d := &zzDialer{}
+	d.script = func() (int, byte) { return -1, 0 }
+	reply := append([]byte("HTTP/1.1 200 OK\r\nx-request-id: "), v)
+	reply = append(reply, "\r\nETag: e\r\nContent-Length: 2\r\n\r\nok"...)
+	d.next = reply
+	c := NewHostClient(&ClientOptions{Dialer: d, MaxConns: 1, DisableHeaderNamesNormalizing: disable}).(*HostClient)
+	c.Addr = "h:80"
+	var req protocol.Request
+	var resp protocol.Response
+	okAll := true
+	for i := 0; i < 2; i++ {
+		if i == 1 {
+			for _, nc := range d.conns {
+				if nc.Closed == 0 {
+					nc.In = append(nc.In, reply...)
+				}
+			}
+		}
+		req.SetRequestURI("http://h/x")
+		err := c.Do(&zzCtx{}, &req, &resp)
+		if err != nil {
+			okAll = false
+			break
+		}
+		var names []byte
+		var val []byte
+		resp.Header.VisitAll(func(k, vv []byte) {
+			names = append(names, k...)
+			names = append(names, ';')
+			if len(k) == len("x-request-id") && (k[0] == 'x' || k[0] == 'X') {
+				val = append([]byte(nil), vv...)
+			}
+		})
+		// (VisitAll also reports the default content type of a response that carried none)
+		want := "Content-Length;Content-Type;X-Request-Id;Etag;"
+		if disable {
+			want = "Content-Length;Content-Type;x-request-id;ETag;"
+		}
+		if string(names) != want || len(val) != 1 || val[0] != v || string(resp.Body()) != "ok" {
+			okAll = false
+		}
+	}
+	zz.Cover("reached-assert", true)
+	zz.Cover("connection-reused", len(d.conns) == 1)
+	zz.Assert("field-names-and-values-as-documented-on-both-exchanges", okAll)
+}
